@@ -304,10 +304,43 @@ def run(ck):
             if k_.startswith('sk-'):
                 ck.violation('wire:' + k_, d, {'conf': kw})
         ck.nontrivial(('wire', h, sh.counts.get('protected.opened', 0)))
+        # (4) the same rule where a datagram ENTERS an endpoint: authentic requests of that history, extended / truncated / with one octet changed, are fed to
+        # the real receiver before the genuine one: no reply, no Message ID consumed; the genuine datagram is then answered as usual
+        est = [x for x in a.ctl.ike_sas if x.state.name == 'ESTABLISHED']
+        if est:
+            for variant in ('extended-by-1', 'extended-by-4', 'extended-by-16', 'extended-by-40', 'extended-with-length-fixed', 'truncated-by-1', 'last-octet-changed'):
+                est = [x for x in a.ctl.ike_sas if x.state.name == 'ESTABLISHED']
+                peer = [x for x in b.ctl.ike_sas if x.state.name == 'ESTABLISHED']
+                if not est or not peer:
+                    break
+                est[0].start_dpd_at = sim.clock.t - 1
+                a.step('tick')
+                reqs = [d for d in sim.net if d.dst == str(b.addrs[0])]
+                sim.net.clear()
+                if not reqs:
+                    break
+                good = reqs[0].data
+                bad = {'extended-by-1': good + b'\0', 'extended-by-4': good + bytes(4), 'extended-by-16': good + rng2.randbytes(16), 'extended-by-40': good + rng2.randbytes(40),
+                       'extended-with-length-fixed': good[:24] + (len(good) + 8).to_bytes(4, 'big') + good[28:] + bytes(8), 'truncated-by-1': good[:-1],
+                       'last-octet-changed': good[:-1] + bytes([good[-1] ^ 0x40])}[variant]
+                mid0 = peer[0].peer_msg_id
+                sim.inject(b, reqs[0].src, reqs[0].dst, bad)
+                replies = [d for d in sim.net if d.dst == str(a.addrs[0])]
+                sim.net.clear()
+                ck.count('endpoint.tampered_copies_of_authentic_requests')
+                if replies or peer[0].peer_msg_id != mid0:
+                    ck.violation(f'endpoint-answered-or-consumed-a-modified-protected-datagram:{variant.split("-")[0]}', {'variant': variant, 'replies': len(replies), 'message_id_before_after': (mid0, peer[0].peer_msg_id)}, {'conf': kw})
+                    break
+                sim.inject(b, reqs[0].src, reqs[0].dst, good)
+                sim.drain()
+                if est[0].state.name == 'ESTABLISHED':
+                    ck.count('endpoint.genuine_request_answered_afterwards')
 
 
 def verdict(ck):
     c = ck.counters
+    ck.floor('modified copies of authentic requests fed to a real endpoint', c['endpoint.tampered_copies_of_authentic_requests'], 40)
+    ck.floor('genuine requests answered after their modified copies', c['endpoint.genuine_request_answered_afterwards'], 30)
     ck.floor('round trips', c['roundtrip.messages'], 700)
     ck.floor('reference-sealed messages with extra padding parsed', c['roundtrip.extra_padding'], 2000)
     ck.floor('round trips through a Crypto object that protected earlier messages', c['roundtrip.session_messages'], 60)
